@@ -264,7 +264,8 @@ def decompose_and_order(graph, component, component_name, bo_start=0):
             f"Error: In Chromosome {component_name}, we found more or less than two nodes with degree 1. Skipping this chromosome"
         )
         # hacky but for now maybe ok
-        return None, None, None, None, None
+        # the running BO counter is handed back unchanged so that the next chromosome can go on
+        return None, None, None, bo_start, None
 
     try:
         assert len(degree_two) == len(scaffold_graph) - 2
@@ -272,7 +273,7 @@ def decompose_and_order(graph, component, component_name, bo_start=0):
         logger.warning(
             f"Error: In Chromosome {component_name}, the number of nodes with degree 2 did not mach the expected number"
         )
-        return None, None, None, None, None
+        return None, None, None, bo_start, None
 
     # the scaffold graph should be a line graph here
     traversal = scaffold_graph.dfs(degree_one[0])
